@@ -1,4 +1,8 @@
 import Deb822Verif.Model.DebLossy
+import Deb822Verif.Lemmas.Text
+import Deb822Verif.Lemmas.DebLossyDoc
+import Deb822Verif.Spec.LossyCanon
+import Deb822Verif.Props.C06
 /-!
 # C08 — lossy deb822 values print to text that reads back equal; edits follow a list
 -/
@@ -93,5 +97,322 @@ theorem C08_get_remove (p : Para) (k k' : Str) :
         simp [h2, this]
       · have : (f.1 == k') = false := by simp [h2]
         simp only [this]; exact ih
+
+end Deb822Verif.Props.C08
+
+namespace Deb822Verif.Props.C08
+open Deb822Verif Deb Deb.Lossy Spec Text
+
+/-! ### print / re-read round trip -/
+
+def valueOf (ls : List Str) : Str := Text.join ['\n'] ls
+
+/-- the field as a grammar entry: `Name: line0` then ` line` per further line -/
+def entryOf (k : Str) (ls : List Str) : EntryS :=
+  { key := k, ws := [' '], v := ls.headD [], nl := true,
+    conts := ls.tail.map fun l => { indent := [' '], text := l, nl := true } }
+
+theorem rawLines_noLF (l : Str) (h : '\n' ∉ l) (hne : l ≠ []) : rawLines l = [(l, false)] := by
+  induction l with
+  | nil => exact absurd rfl hne
+  | cons c cs ih =>
+    have hc : c ≠ '\n' := by intro e; apply h; simp [e]
+    have hcs : '\n' ∉ cs := by intro e; apply h; simp [e]
+    cases cs with
+    | nil => simp [rawLines, hc]
+    | cons d ds =>
+      have := ih hcs (by simp)
+      simp only [rawLines, hc, ↓reduceIte] at this ⊢
+      rw [this]
+
+theorem lines_single (l : Str) (h : '\n' ∉ l) : (lines l).length ≤ 1 := by
+  cases l with
+  | nil => simp [lines, rawLines]
+  | cons c cs => simp [lines, rawLines_noLF _ h (by simp)]
+
+theorem noNl_lineOK {l : Str} (h : NoNl l) : LineOK l := by
+  constructor
+  · intro hm; have := h _ hm; simp [isNewline] at this
+  · intro hl
+    have hm : '\r' ∈ l := List.mem_of_getLast? hl
+    have := h _ hm; simp [isNewline] at this
+
+/-- `str::lines()` of lines joined by LF gives the lines back (last line non-empty) -/
+theorem lines_join (ls : List Str) (hn : ∀ l ∈ ls, NoNl l) (hlast : ∀ l, ls.getLast? = some l → l ≠ [])
+    (hne : ls ≠ []) : lines (Text.join ['\n'] ls) = ls := by
+  induction ls with
+  | nil => exact absurd rfl hne
+  | cons a ls ih =>
+    cases ls with
+    | nil =>
+      have ha : a ≠ [] := hlast a (by simp)
+      have : '\n' ∉ a := (noNl_lineOK (hn a (by simp))).1
+      simp [Text.join, lines, rawLines_noLF a this ha]
+    | cons b ls =>
+      have := ih (fun l hl => hn l (by simp [hl])) (fun l hl => hlast l (by simpa using hl)) (by simp)
+      simp only [Text.join, List.append_assoc, List.cons_append, List.nil_append]
+      rw [lines_line_cons a _ (noNl_lineOK (hn a (by simp))), this]
+
+theorem entryOf_str (k : Str) (ls : List Str) (h : CanonLines ls) :
+    printField (k, valueOf ls) = (entryOf k ls).str := by
+  obtain ⟨a, rest, rfl⟩ : ∃ a rest, ls = a :: rest := by
+    cases ls with
+    | nil => exact absurd rfl h.ne
+    | cons a rest => exact ⟨a, rest, rfl⟩
+  cases rest with
+  | nil =>
+    -- single line: `Name: value`
+    have hl := lines_single a (noNl_lineOK (h.noNl a (by simp))).1
+    have : ¬ (lines (valueOf [a])).length > 1 := by simpa [valueOf, Text.join] using Nat.not_lt.2 hl
+    simp only [printField, this, ↓reduceIte]
+    simp [valueOf, Text.join, entryOf, EntryS.str, nlText]
+  | cons b rest =>
+    have hlast : ∀ l, (a :: b :: rest).getLast? = some l → l ≠ [] := by
+      intro l hl
+      have hm : l ∈ (a :: b :: rest).tail := by
+        have := List.mem_of_getLast? (l := b :: rest) (by simpa using hl)
+        simpa using this
+      obtain ⟨_, c, cs, hc, _⟩ := h.tailOk l hm
+      rw [hc]; simp
+    have hlines := lines_join (a :: b :: rest) h.noNl hlast (by simp)
+    have : (lines (valueOf (a :: b :: rest))).length > 1 := by
+      rw [valueOf, hlines]; simp
+    simp only [printField, this, ↓reduceIte, valueOf, hlines]
+    simp only [entryOf, EntryS.str, nlText, ContS.str, List.headD_cons, List.tail_cons, List.map_cons,
+      List.flatten_cons, ↓reduceIte, List.map_map]
+    have : (List.map (fun l => ' ' :: (l ++ ['\n'])) rest).flatten =
+        (List.map (ContS.str ∘ fun l => { indent := [' '], text := l, nl := true }) rest).flatten := by
+      congr 1
+    simp [ContS.str, nlText, Function.comp_def]
+
+theorem entryOf_wf (k : Str) (ls : List Str) (hk : ValidKey k) (h : CanonLines ls) : (entryOf k ls).WF := by
+  refine ⟨hk, ?_, ?_, ?_⟩
+  · intro c hc; simp [entryOf] at hc; subst hc; decide
+  · constructor
+    · cases ls with
+      | nil => intro c hc; simp [entryOf] at hc
+      | cons a rest => simpa [entryOf] using h.noNl a (by simp)
+    · intro c hc
+      apply h.first c
+      cases ls with
+      | nil => simp [entryOf] at hc
+      | cons a rest => simpa [entryOf] using hc
+  · intro c hc
+    simp only [entryOf, List.mem_map] at hc
+    obtain ⟨l, hl, rfl⟩ := hc
+    exact ⟨by simp, by intro x hx; simp at hx; subst hx; decide, h.tailOk l hl⟩
+
+theorem entryOf_term (k : Str) (ls : List Str) (more : Bool) : (entryOf k ls).Term more := by
+  refine ⟨Or.inl rfl, ?_⟩
+  simp only [entryOf]
+  induction ls.tail with
+  | nil => trivial
+  | cons l ls ih => exact ⟨Or.inl rfl, ih⟩
+
+theorem entryOf_lossy (k : Str) (ls : List Str) (h : ls ≠ []) :
+    lossyEntry (entryOf k ls) = (k, valueOf ls) := by
+  cases ls with
+  | nil => exact absurd rfl h
+  | cons a rest => simp [lossyEntry, lossyValue, entryOf, valueOf, Function.comp_def]
+
+/-- a lossy paragraph given by (name, lines) pairs -/
+abbrev FieldL := Str × List Str
+def fieldOf (f : FieldL) : Field := (f.1, valueOf f.2)
+
+def paraOf (f : FieldL) (fs : List FieldL) : ParaS :=
+  { first := entryOf f.1 f.2, rest := fs.map fun g => PItem.entry (entryOf g.1 g.2) }
+
+/-- documents as non-empty paragraphs: first field + further fields -/
+abbrev DocL := List (FieldL × List FieldL)
+
+def lossyOfDocL (d : DocL) : Doc := d.map fun p => fieldOf p.1 :: p.2.map fieldOf
+
+def docOf : DocL → List (ParaS × List Gap)
+  | [] => []
+  | [p] => [(paraOf p.1 p.2, [])]
+  | p :: q :: ps => (paraOf p.1 p.2, [Gap.blank]) :: docOf (q :: ps)
+
+def CanonDoc (d : DocL) : Prop :=
+  ∀ p ∈ d, (ValidKey p.1.1 ∧ CanonLines p.1.2) ∧ ∀ f ∈ p.2, ValidKey f.1 ∧ CanonLines f.2
+
+theorem paraOf_str (f : FieldL) (fs : List FieldL) (hf : CanonLines f.2)
+    (hfs : ∀ g ∈ fs, CanonLines g.2) :
+    printPara (fieldOf f :: fs.map fieldOf) = (paraOf f fs).str := by
+  simp only [printPara, List.map_cons, List.flatten_cons, ParaS.str, paraOf, fieldOf,
+    entryOf_str _ _ hf, List.map_map]
+  congr 1
+  induction fs with
+  | nil => rfl
+  | cons g gs ih =>
+    simp only [List.map_cons, List.flatten_cons, Function.comp, PItem.str]
+    have := entryOf_str g.1 g.2 (hfs g (by simp))
+    simp only [fieldOf] at this ⊢
+    rw [this]
+    congr 1
+    exact ih (fun x hx => hfs x (by simp [hx]))
+
+theorem docOf_str (d : DocL) (h : CanonDoc d) :
+    printDoc (lossyOfDocL d) = (⟨[], docOf d⟩ : DocS).str := by
+  simp only [DocS.str, gapsStr, List.map_nil, List.flatten_nil, List.nil_append]
+  induction d with
+  | nil => rfl
+  | cons p d ih =>
+    have hp := h p (by simp)
+    have ihd := ih (fun q hq => h q (by simp [hq]))
+    cases d with
+    | nil =>
+      simp only [lossyOfDocL, List.map_cons, List.map_nil, printDoc, docOf, List.flatten_cons,
+        List.flatten_nil, List.append_nil, gapsStr]
+      exact paraOf_str p.1 p.2 hp.1.2 (fun g hg => (hp.2 g hg).2)
+    | cons q d =>
+      simp only [lossyOfDocL, List.map_cons, printDoc, docOf, List.flatten_cons] at ihd ⊢
+      rw [paraOf_str p.1 p.2 hp.1.2 (fun g hg => (hp.2 g hg).2)]
+      simp only [gapsStr, List.map_cons, List.map_nil, List.flatten_cons, List.flatten_nil, Gap.str,
+        List.append_nil, List.append_assoc, List.cons_append, List.nil_append]
+      rw [← ihd]
+
+end Deb822Verif.Props.C08
+
+namespace Deb822Verif.Props.C08
+open Deb822Verif Deb Deb.Lossy Spec Text
+
+theorem paraOf_wf (f : FieldL) (fs : List FieldL) (hf : ValidKey f.1 ∧ CanonLines f.2)
+    (hfs : ∀ g ∈ fs, ValidKey g.1 ∧ CanonLines g.2) : (paraOf f fs).WF := by
+  refine ⟨entryOf_wf _ _ hf.1 hf.2, ?_⟩
+  intro i hi
+  simp only [paraOf, List.mem_map] at hi
+  obtain ⟨g, hg, rfl⟩ := hi
+  exact entryOf_wf _ _ (hfs g hg).1 (hfs g hg).2
+
+theorem itemsTerm_entries (fs : List FieldL) (more : Bool) :
+    itemsTerm (fs.map fun g => PItem.entry (entryOf g.1 g.2)) more := by
+  induction fs with
+  | nil => trivial
+  | cons g gs ih => exact ⟨entryOf_term _ _ _, ih⟩
+
+theorem paraOf_term (f : FieldL) (fs : List FieldL) (more : Bool) : (paraOf f fs).Term more :=
+  ⟨entryOf_term _ _ _, itemsTerm_entries fs more⟩
+
+theorem docOf_paras_ok (d : DocL) (h : CanonDoc d) :
+    ∀ pg ∈ docOf d, pg.1.WF ∧ ∀ g ∈ pg.2, g.WF := by
+  induction d with
+  | nil => intro pg hpg; simp [docOf] at hpg
+  | cons p d ih =>
+    have hp := h p (by simp)
+    have ihd := ih (fun q hq => h q (by simp [hq]))
+    cases d with
+    | nil =>
+      intro pg hpg
+      simp only [docOf, List.mem_singleton] at hpg
+      subst hpg
+      exact ⟨paraOf_wf _ _ hp.1 hp.2, by simp⟩
+    | cons q d =>
+      intro pg hpg
+      simp only [docOf, List.mem_cons] at hpg ihd
+      rcases hpg with rfl | hpg
+      · refine ⟨paraOf_wf _ _ hp.1 hp.2, ?_⟩
+        intro g hg; simp at hg; subst hg; trivial
+      · exact ihd pg (by simpa [docOf] using hpg)
+
+theorem docOf_term (d : DocL) : parasTerm (docOf d) := by
+  induction d with
+  | nil => trivial
+  | cons p d ih =>
+    cases d with
+    | nil => exact ⟨paraOf_term _ _ _, Or.inl rfl, trivial⟩
+    | cons q d =>
+      obtain ⟨x, xs, hx⟩ : ∃ x xs, docOf (q :: d) = x :: xs := by
+        cases d with
+        | nil => exact ⟨_, _, rfl⟩
+        | cons r d => exact ⟨_, _, rfl⟩
+      simp only [docOf, hx] at ih ⊢
+      exact ⟨paraOf_term _ _ _, ⟨[], rfl⟩, trivial, ih⟩
+
+theorem docOf_wf (d : DocL) (h : CanonDoc d) : (⟨[], docOf d⟩ : DocS).WF :=
+  ⟨by simp, trivial, docOf_paras_ok d h, docOf_term d⟩
+
+theorem lossyItems_entries (fs : List FieldL) (h : ∀ g ∈ fs, g.2 ≠ []) :
+    lossyItems (fs.map fun g => PItem.entry (entryOf g.1 g.2)) = fs.map fieldOf := by
+  induction fs with
+  | nil => rfl
+  | cons g gs ih =>
+    simp only [List.map_cons, lossyItems, itemEntries] at ih ⊢
+    rw [ih (fun x hx => h x (by simp [hx])), entryOf_lossy _ _ (h g (by simp))]
+    rfl
+
+theorem lossyDoc_docOf (d : DocL) (h : CanonDoc d) :
+    lossyDoc (⟨[], docOf d⟩ : DocS) = lossyOfDocL d := by
+  simp only [lossyDoc, lossyOfDocL]
+  induction d with
+  | nil => rfl
+  | cons p d ih =>
+    have hp := h p (by simp)
+    have ihd := ih (fun q hq => h q (by simp [hq]))
+    have hpara : lossyPara (paraOf p.1 p.2) = fieldOf p.1 :: p.2.map fieldOf := by
+      simp only [lossyPara, paraOf]
+      rw [entryOf_lossy _ _ hp.1.2.ne, lossyItems_entries _ (fun g hg => (hp.2 g hg).2.ne)]
+      rfl
+    cases d with
+    | nil => simp [docOf, hpara]
+    | cons q d =>
+      simp only [docOf, List.map_cons] at ihd ⊢
+      rw [hpara, ihd]
+
+/-- **C08 round trip**: a lossy document whose field names are valid and whose values consist of
+    canonical lines prints to text that
+    * the lossy reader turns back into an equal value,
+    * the lossless reader accepts, exposing the same names and the same non-blank value lines,
+    with paragraphs separated by exactly one blank line (`printDoc`). -/
+theorem C08_roundtrip (d : DocL) (h : CanonDoc d) :
+    Lossy.read (printDoc (lossyOfDocL d)) = .ok (lossyOfDocL d)
+    ∧ ∃ t, readStrict (printDoc (lossyOfDocL d)) = .ok t
+        ∧ (lossyOfDocL d).map (·.map C06.nbField) = (docItems t).map (·.map C06.nbField) := by
+  have hwf := docOf_wf d h
+  have hj := C06.C06_joint_accept _ hwf
+  rw [docOf_str d h]
+  rw [lossyDoc_docOf d h] at hj
+  exact ⟨hj.1, _, hj.2.1, hj.2.2⟩
+
+/-- paragraphs are separated by one blank line -/
+theorem C08_sep (p q : Para) (ps : Doc) :
+    printDoc (p :: q :: ps) = printPara p ++ '\n' :: printDoc (q :: ps) := rfl
+
+/-! ### the side conditions cannot be dropped -/
+
+/-- a value ending in a newline prints a blank line, which ends the paragraph -/
+theorem C08_needs_no_trailing_newline :
+    Lossy.read (printDoc [[("A".toList, "a\n".toList)], [("B".toList, "b".toList)]])
+      ≠ .ok [[("A".toList, "a\n".toList)], [("B".toList, "b".toList)]] := by decide +kernel
+
+/-- a continuation line starting with a space loses it to the indentation -/
+theorem C08_needs_no_leading_space :
+    Lossy.read (printDoc [[("A".toList, "a\n b".toList)]]) ≠ .ok [[("A".toList, "a\n b".toList)]] := by
+  decide +kernel
+
+/-- a continuation line starting with '#' is read as a comment -/
+theorem C08_needs_no_hash_continuation :
+    Lossy.read (printDoc [[("A".toList, "a\n#b".toList)]]) ≠ .ok [[("A".toList, "a\n#b".toList)]] := by
+  decide +kernel
+
+/-! ### non-vacuity -/
+
+def exDoc : DocL :=
+  [(("Source".toList, ["foo".toList]), [("A".toList, [[], "x: y".toList, ":z é".toList]), ("A".toList, [[]])]),
+   (("Package".toList, ["#c".toList, "l2 ".toList]), [])]
+
+example : CanonDoc exDoc := by
+  intro p hp
+  simp only [exDoc, List.mem_cons, List.mem_singleton, List.not_mem_nil, or_false] at hp
+  rcases hp with rfl | rfl
+  · refine ⟨⟨by decide, ⟨by decide, by decide, by decide, by decide⟩⟩, ?_⟩
+    intro f hf
+    simp only [List.mem_cons, List.not_mem_nil, or_false] at hf
+    rcases hf with rfl | rfl
+    · exact ⟨by decide, ⟨by decide, by decide, by decide, by decide⟩⟩
+    · exact ⟨by decide, ⟨by decide, by decide, by decide, by decide⟩⟩
+  · exact ⟨⟨by decide, ⟨by decide, by decide, by decide, by decide⟩⟩, by simp⟩
+
+example : printDoc (lossyOfDocL exDoc) =
+    "Source: foo\nA: \n x: y\n :z é\nA: \n\nPackage: #c\n l2 \n".toList := by decide
 
 end Deb822Verif.Props.C08
